@@ -65,6 +65,11 @@ where
     Ok(())
 }
 
+#[cfg(feature = "verif-hooks")]
+pub(crate) fn verif_xml_escape(s: &str) -> String {
+    format!("{}", XmlEscaped(s))
+}
+
 #[cfg(test)]
 mod tests {
     use super::*;
